@@ -437,6 +437,14 @@ def gen(rng: random.Random, tier: str):
             cases.append(mk("find_path", dict(bs, start=st), ("corpus", "suffix-names"), q=q))
         for q in ("a/b", "/a/b", "a/ab/b", "/a/ab/b/", "a/ab", "ab/b", "b", "a/c", "a/ab/b/c", "//a//b"):
             cases.append(mk("find_full_path", dict(bs, start=st), ("corpus", "suffix-names"), q=q))
+    # a tree far deeper than the small-scope part reaches: a chain of 70 levels whose bottom node has three children with
+    # leaves of repeated names below them (a walk that changes strategy below some depth and mixes the sibling order up)
+    def leafy(nm):
+        return (nm, {"age": 1}, [("a", {"age": 2}, []), ("b", {}, []), ("a b", {"age": 2}, [])])
+    deep = ("b0", {}, [leafy("x"), leafy("ab"), leafy("y")])
+    for i in range(69):
+        deep = ("c%d" % i, {}, [deep] + ([("a", {"age": 2}, [])] if i % 23 == 5 else []))
+    cases += _cases_for_tree(rng, {"spec": deep, "binary": False, "sep": "/"}, [0, 3, 60], 2, ("corpus", "deep-70"))
     # ---- exhaustive: relative paths and count contract on small trees
     nmax, cmax, mdmax = (4, 3, 3) if quick else (5, 4, 4)
     comps = [".", "..", "*", "a", "b"]
